@@ -17,6 +17,12 @@ Definition sm_step (st : smstate) (r : record) : smstate :=
   end.
 Definition sm_run (st : smstate) (rs : list record) : smstate := fold_left sm_step rs st.
 
+(** a record the codec carries faithfully: it decodes to itself and fits the 32-bit length field
+    of a frame (the premise of the theorems about files the writer produced; the concrete codec
+    of Wal/Codec.v satisfies it on well-formed records shorter than 4 GiB) *)
+Definition rec_ok (enc : record -> bytes) (dec : bytes -> option record) (r : record) : Prop :=
+  dec (enc r) = Some r /\ lenZ (enc r) < two32.
+
 Inductive rres (A : Type) := ROk (a : A) | RErr.
 Arguments ROk {A} _.
 Arguments RErr {A}.
